@@ -389,6 +389,7 @@ def c06(run):
     r_misc12.run_timeout_drawn(run, P)
     r_misc12.run_unlink_before_callout(run, P)
     r_misc12.run_min_update(run, P)
+    r_misc12.run_one_nack_per_disconnect(run, P)
     from rules import r_cnt
     r_cnt.run_counted_queued(run, P)     # a counted Confirmable is queued for retransmission (or un-counted): it cannot vanish without an outcome
     from rules import r_timer
@@ -517,6 +518,7 @@ def c19(run):
     from rules import r_expiry
     from rules import r_misc12 as _m12
     _m12.run_in_progress_not_failure(run, P)
+    _m12.run_one_nack_per_disconnect(run, P)   # each queued Confirmable request is reported by exactly one NACK when the session goes
     _m12.run_sibling_deadline_tests(run, P)   # the (D)TLS retransmission timer is asked the same question for client and server sessions
     r_expiry.run(run, P)                 # half-open sessions are cleared down when they are old, not while their handshake is in progress
     from rules import r_delayq
@@ -661,6 +663,7 @@ def c07(run):
     from rules import r_misc12 as _m12
     _m12.run_filter_field_recorded(run, P)
     _m12.run_rst_for_any_type(run, P)
+    _m12.run_one_nack_per_disconnect(run, P)   # a request that ends with the session is reported by exactly one NACK
     _m12.run_counter_decrement(run, P)   # a wrapped in-flight count parks the request for ever: neither response nor NACK
     from rules import r_pairargs
     r_pairargs.run_token_identity(run, P)    # the request a response retires is found by its token, whatever the token's length
